@@ -87,6 +87,7 @@ theorem image_specs : ∀ f, PrimarySpec f ∧ OuterSpec f ∧ InnerSpec f ∧ P
       | .id s :: .comma :: ts, h => simp [primary] at h; obtain ⟨rfl, _⟩ := h; simp [canon, isBare]
       | .id s :: .not :: ts, h => simp [primary] at h; obtain ⟨rfl, _⟩ := h; simp [canon, isBare]
       | .id s :: .op _ :: ts, h => simp [primary] at h; obtain ⟨rfl, _⟩ := h; simp [canon, isBare]
+      | .id s :: .sym _ :: ts, h => simp [primary] at h; obtain ⟨rfl, _⟩ := h; simp [canon, isBare]
       | .op o :: ts, h =>
         cases o <;> simp only [primary] at h <;> try (simp at h)
         obtain ⟨x, hx, h⟩ := Res.bind_eq_ok h
@@ -104,6 +105,7 @@ theorem image_specs : ∀ f, PrimarySpec f ∧ OuterSpec f ∧ InnerSpec f ∧ P
       | [], h => simp [primary] at h
       | .rp :: ts, h => simp [primary] at h
       | .comma :: ts, h => simp [primary] at h
+      | .sym _ :: ts, h => simp [primary] at h
     have hO : OuterSpec (f + 1) := by
       intro lhs minP ts e rest h cl hhead
       have stay : ∀ ts', (∀ o tl, ts' = .op o :: tl → prec o < minP) → e = lhs → rest = ts' → ts' = ts →
@@ -142,6 +144,7 @@ theorem image_specs : ∀ f, PrimarySpec f ∧ OuterSpec f ∧ InnerSpec f ∧ P
         | rp => simp [outer] at h; exact stay _ (fun _ _ heq => by simp at heq) h.1.symm h.2.symm rfl
         | comma => simp [outer] at h; exact stay _ (fun _ _ heq => by simp at heq) h.1.symm h.2.symm rfl
         | not => simp [outer] at h; exact stay _ (fun _ _ heq => by simp at heq) h.1.symm h.2.symm rfl
+        | sym a => simp [outer] at h; exact stay _ (fun _ _ heq => by simp at heq) h.1.symm h.2.symm rfl
     have hI : InnerSpec (f + 1) := by
       intro rhs p ts e rest h cr oq hhead
       have stay : ∀ ts', (∀ o tl, ts' = .op o :: tl → prec o ≤ p) → e = rhs → rest = ts' → ts' = ts →
@@ -171,6 +174,7 @@ theorem image_specs : ∀ f, PrimarySpec f ∧ OuterSpec f ∧ InnerSpec f ∧ P
         | rp => simp [inner] at h; exact stay _ (fun _ _ heq => by simp at heq) h.1.symm h.2.symm rfl
         | comma => simp [inner] at h; exact stay _ (fun _ _ heq => by simp at heq) h.1.symm h.2.symm rfl
         | not => simp [inner] at h; exact stay _ (fun _ _ heq => by simp at heq) h.1.symm h.2.symm rfl
+        | sym a => simp [inner] at h; exact stay _ (fun _ _ heq => by simp at heq) h.1.symm h.2.symm rfl
     have hA : ParamsSpec (f + 1) := by
       intro ts args rest h
       simp only [params] at h
